@@ -140,6 +140,12 @@ func cmdCheck(args []string) int {
 	}
 	x := &Explorer{P: P, roots: roots, workers: *workers, solverKind: *solver, timeoutMs: to, verbose: *verbose,
 		maxWitnessPerRoot: 2, stopOnFail: true}
+	if *tier == "thorough" {
+		x.crossRate = 8
+	}
+	if v, err := strconv.Atoi(os.Getenv("GOSYM_CROSS")); err == nil {
+		x.crossRate = v
+	}
 	if *budget == 0 {
 		// default exploration budgets; exhausting one is reported as INCONCLUSIVE, never as success
 		*budget = 1500
@@ -191,7 +197,7 @@ func cmdCheck(args []string) int {
 	var cexs []cexT
 	var inconcl []string
 	paths, decisions, asserts, folded, infeasible, steps := 0, 0, 0, 0, 0, 0
-	raceChecks := 0
+	raceChecks, crossChecked, crossDisagree := 0, 0, 0
 	funcs := map[string]bool{}
 	var samples []sampleT
 	var tapes []*Tape
@@ -205,6 +211,8 @@ func cmdCheck(args []string) int {
 		infeasible += rr.Infeasible
 		steps += rr.Steps
 		raceChecks += rr.RaceChecks
+		crossChecked += rr.CrossChecked
+		crossDisagree += rr.CrossDisagree
 		for f := range rr.Funcs {
 			funcs[f] = true
 		}
@@ -490,6 +498,7 @@ func cmdCheck(args []string) int {
 				"known_findings_matched":           len(usedKnown),
 				"ssa_instructions_executed":        steps,
 				"race_monitor_accesses_checked":    raceChecks,
+				"second_solver_rechecks":           map[string]interface{}{"solver": "z3-new 5.1.0, from scratch", "every_nth_discharged_obligation": x.crossRate, "rechecked": crossChecked, "disagreements": crossDisagree},
 				"lib_priority_reexplored_roots":    len(lpResults),
 				"load_s":                           loadS,
 				"replay_s":                         replayS,
